@@ -475,9 +475,11 @@ class XMLSchemaConverter(NamespaceMapper):
             elif not isinstance(value, MutableSequence) or not value:
                 ns_name = self.unmap_qname(name, xmlns=self.get_xmlns_from_data(value))
                 content.append((ns_name, value))
-            elif isinstance(value[0], (MutableMapping, MutableSequence)):
-                ns_name = self.unmap_qname(name, xmlns=self.get_xmlns_from_data(value[0]))
-                content.extend((ns_name, item) for item in value)
+            elif any(isinstance(x, (MutableMapping, MutableSequence)) for x in value):
+                for item in value:
+                    # each item can redeclare the prefix used by the common key
+                    ns_name = self.unmap_qname(name, xmlns=self.get_xmlns_from_data(item))
+                    content.append((ns_name, item))
             else:
                 ns_name = self.unmap_qname(name)
                 xsd_child = xsd_element.match_child(ns_name)
